@@ -161,6 +161,27 @@ func entryCreated(info *types.Info, e regEntry) *types.Named {
 		return true
 	})
 	if created == nil {
+		// single-exit factories: case K: p = <concrete>; ... return p after the switch
+		ast.Inspect(e.Body, func(n ast.Node) bool {
+			as, ok := n.(*ast.AssignStmt)
+			if !ok || len(as.Lhs) != 1 || len(as.Rhs) != 1 {
+				return true
+			}
+			id, ok := as.Lhs[0].(*ast.Ident)
+			if !ok {
+				return true
+			}
+			if obj := info.ObjectOf(id); obj != nil {
+				if _, isIface := obj.Type().Underlying().(*types.Interface); isIface {
+					if tv, ok := info.Types[as.Rhs[0]]; ok {
+						note(tv.Type)
+					}
+				}
+			}
+			return true
+		})
+	}
+	if created == nil {
 		// K: &T{} / K: pool variable etc.: the static type of the value expression
 		if ex, ok := e.Body.(ast.Expr); ok {
 			if tv, ok := info.Types[ex]; ok {
